@@ -13,7 +13,7 @@ pub struct Aes;
 // ------------------------------------------------------------------------------------------
 // independent primitives
 
-fn fnv64(bs: &[u8]) -> u64 {
+pub(super) fn fnv64(bs: &[u8]) -> u64 {
     let mut h: u64 = 0xcbf29ce484222325;
     for b in bs {
         h ^= *b as u64;
@@ -39,7 +39,7 @@ pub(super) fn kdf(pw: &[u8], salt: &[u8], len: usize) -> Vec<u8> {
 }
 
 /// Key stream: block i (i = 1, 2, …) is AES_k(i as 16-byte little-endian integer).
-fn keystream(key: &[u8], nblocks: usize) -> Vec<u8> {
+pub(super) fn keystream(key: &[u8], nblocks: usize) -> Vec<u8> {
     use aes::cipher::{generic_array::GenericArray, BlockEncrypt, KeyInit};
     let mut out = Vec::with_capacity(nblocks * 16);
     for i in 1..=(nblocks as u128) {
@@ -55,7 +55,7 @@ fn keystream(key: &[u8], nblocks: usize) -> Vec<u8> {
     out
 }
 
-fn hmac_sha1(key: &[u8], msg: &[u8]) -> Vec<u8> {
+pub(super) fn hmac_sha1(key: &[u8], msg: &[u8]) -> Vec<u8> {
     use hmac::Mac;
     let mut m = <hmac::Hmac<sha1::Sha1> as Mac>::new_from_slice(key).unwrap();
     m.update(msg);
